@@ -147,8 +147,14 @@ func corruptFastq(r FastqRec, seq, quals []byte, cr *FqCorruption) (text []byte,
 		return fastqText(name, seq, append(bytes.Clone(quals), extra...)), false
 	case "cut":
 		full := fastqText(name, seq, quals)
-		// valid offsets: 1 .. len(full)-2
-		off := 1 + cr.Arg%(len(full)-2)
+		// valid offsets: 1 .. len(full)-2 (without its last byte the record is still complete: an
+		// unterminated last line) - except when the qualities are empty: then dropping the last
+		// byte removes the fourth line altogether
+		n := len(full) - 2
+		if len(quals) == 0 {
+			n++
+		}
+		off := 1 + cr.Arg%n
 		return full[:off], true
 	}
 	return fastqText(name, seq, quals), false
@@ -185,6 +191,9 @@ func checkC02(c C02Case, o *Obs) error {
 			var w bytes.Buffer
 			if err := fq.Write(&w); err != nil {
 				return fmt.Errorf("record %d: Write to a buffer failed: %v", i, err)
+			}
+			if err := samePlain(fq.Write, w.Bytes()); err != nil {
+				return fmt.Errorf("record %d: %v", i, err)
 			}
 			if err := writeAfterFailure(fq.Write, w.Bytes()); err != nil {
 				return fmt.Errorf("record %d: %v", i, err)
@@ -427,7 +436,7 @@ func exhaustiveC02(thorough bool, emit func(C02Case) bool) {
 				}
 			}
 			reclen := len(f[k].Name) + 2*f[k].Seq.Len() + 6
-			for off := 0; off < reclen-2; off++ {
+			for off := 0; off < reclen-1; off++ {
 				if !emit(C02Case{Recs: f, Corrupt: &FqCorruption{K: k, Kind: "cut", Arg: off}}) {
 					return
 				}
